@@ -141,6 +141,8 @@ func checkC11(c *Ctx) {
 
 	// lookups read the nodes of THIS history: a re-used node key must not keep serving a cached node of an erased future
 	checkCacheRefresh(c)
+	// existence / rank answers for the working tree come from the tree, never from the index of the last commit
+	checkIndexReaders(c)
 
 	// AVL decision table
 	c.rule("TABLE-balance", "rebalancing decision over balance factor × child balance factor", 15)
